@@ -235,6 +235,19 @@ def broken_rules(doc):
                 seen.append(it["name"])
     if len(set(seen)) != len(seen):
         out.append("duplicate-variable-or-dependency-name")
+    if "SPECROOT" in seen:
+        out.append("reserved-variable-name")        # maestro defines $(SPECROOT) itself
+    if isinstance(labels, dict):
+        for k, v in labels.items():
+            if not k or v is None:
+                out.append("empty:label")
+    sources = env.get("sources", [])
+    if isinstance(sources, list):
+        for src in sources:
+            if isinstance(src, str) and not re.search(r"\w", src):
+                out.append("empty:source")
+    elif "sources" in env:
+        out.append("type:env.sources")
     return out
 
 
@@ -272,6 +285,11 @@ def monitor(doc, desc, out, info, root):
     if out.startswith("crash"):
         mon.append(("internal-error", "site=%s %s after mutation '%s'" % (crash_site(doc, root), out, desc)))
         return mon
+    if out.startswith("rejected") and not out.endswith("@load") and not broken:
+        # the validator let it through, no documented rule is violated, and a
+        # consumer (environment / steps / parameters / Study) refused it
+        mon.append(("accepted-convertible", "validated specification refused by a consumer: %s after mutation '%s'"
+                    % (out, desc)))
     if out == "accepted":
         if broken:
             mon.append(("malformed-accepted", "rule=%s violated after mutation '%s' but the specification was accepted"
@@ -385,6 +403,8 @@ CORPUS_MUTATIONS = [
     ("duplicate step", lambda d: d["study"].append(dict(d["study"][0]))),
     ("self dependency", lambda d: d["study"][0]["run"].__setitem__("depends", [d["study"][0]["name"]])),
     ("self dependency (all combos)", lambda d: d["study"][0]["run"].__setitem__("depends", [d["study"][0]["name"] + "_*"])),
+    ("self dependency (bare star)", lambda d: d["study"][1]["run"].__setitem__("depends", ["a", d["study"][1]["name"] + "*"])),
+    ("variable with value 0", lambda d: d.__setitem__("env", {"variables": {"SEED": 0, "F": 0.0}})),
     ("undefined dependency", lambda d: d["study"][0]["run"].__setitem__("depends", ["nosuch"])),
     ("delete description block", lambda d: d.pop("description")),
     ("study is a scalar", lambda d: d.__setitem__("study", 5)),
